@@ -1,7 +1,7 @@
 SPECIFICATION Spec
 CONSTANTS
   Routers = {"P", "L"}
-  Ops = {"Authorize", "Login", "Callback", "CodeExchange", "Refresh"}
+  Ops = {"Authorize", "Login", "Callback", "CodeExchange", "Refresh", "Withdraw"}
   MaxReq = 2
   MaxCode = 2
   MaxAT = 4
